@@ -114,6 +114,8 @@ func (a *alphabet) relCases() []Case {
 	}
 	rec(nil, a.SegDepth)
 	paths = append(paths, "", "/", "//b.example", "//b.example/", "//b.example/x/../y", "//b.example:8080/x", "//u@b.example/x")
+	// references that net/url takes and the URL standard rejects (they fail late, inside the resolution against the parent)
+	paths = append(paths, "//b.example:65536/x", "//:80/x", "//b.example:0/x", "/x%zz", "//b.ex ample/x", "//[::1/x")
 	var out []Case
 	seen := map[string]bool{}
 	for _, p := range paths {
